@@ -12,7 +12,7 @@ import (
 
 func TestCheck(t *testing.T) {
 	vcommon.Main(t, "C13",
-		vcommon.S("value", 400000, 12800000, genValueCase(), checkValue),
+		vcommon.S("value", 320000, 9600000, genValueCase(), checkValue),
 		vcommon.S("doc", 640000, 19200000, genDocCase(), checkDoc),
 		vcommon.S("nonfinite", 32000, 960000, genNonFiniteCase(), checkNonFinite),
 		vcommon.S("refself", 48000, 1600000, genRefCase(), checkRefSelf),
